@@ -130,6 +130,120 @@ def ensure_facts(fs="default"):
         lock.close()
 
 
+# Private fields of the structs the rules talk about, identified by the type of the field (each of these structs has at most one
+# field of each kind), so that renaming a private field changes nothing: role name -> predicate on the declared type.
+def _is_param(ty, adt):
+    return ty in (adt.get("generics") or []) or bool(re.fullmatch(r"[A-Z][A-Za-z0-9]*", ty))
+
+
+FIELD_ROLES = {
+    "impls::mem_word_reader::MemWordReader": {"data": "param", "word_index": "usize"},
+    "impls::mem_word_writer::MemWordWriterSlice": {"data": "param", "word_index": "usize"},
+    "impls::mem_word_writer::MemWordWriterVec": {"data": "param", "word_index": "usize"},
+    "impls::word_adapter::WordAdapter": {"backend": "param"},
+    "impls::bit_reader::BitReader": {"data": "param", "bit_index": "u64"},
+    "impls::buf_bit_reader::BufBitReader": {"backend": "param", "buffer": "proj", "bits_in_buffer": "usize"},
+    "impls::buf_bit_writer::BufBitWriter": {"backend": "param", "buffer": "proj", "space_left_in_buffer": "usize"},
+    "utils::count::CountBitWriter": {"bit_write": "param"},
+    "utils::count::CountBitReader": {"bit_read": "param"},
+    "utils::dbg_codes::DbgBitReader": {"reader": "param"},
+    "utils::dbg_codes::DbgBitWriter": {"writer": "param"},
+    "utils::find_change::FindChangePoints": {"func": "param", "current": "u64", "prev_value": "usize"},
+    "utils::stats::CodesStatsWrapper": {"stats": "mutex", "wrapped": "param"},
+}
+
+
+def _kind_of(ty, adt):
+    if ty in ("usize", "u64"):
+        return ty
+    if ty.startswith("std::marker::PhantomData"):
+        return "phantom"
+    if ty.startswith("std::sync::Mutex<"):
+        return "mutex"
+    if " as " in ty:
+        return "proj"
+    if _is_param(ty, adt):
+        return "param"
+    return "other"
+
+
+def _type_head(ty):
+    ty = ty.strip()
+    while True:
+        m = re.match(r"^(&(\'\w+ )?(mut )?|\*const |\*mut )", ty)
+        if not m:
+            break
+        ty = ty[m.end():]
+    return ty.split("<")[0].strip()
+
+
+def canonicalise_fields(adts, bodies):
+    """rename the private fields of FIELD_ROLES structs to the role names the rules use (in the ADT table, in aggregates and in
+    every place projection whose base is such a struct); returns {adt: {actual: canonical}} for the renames made"""
+    canon = {}          # adt path -> list of canonical names by field index
+    made = {}
+    for path, roles in FIELD_ROLES.items():
+        a = adts.get(path)
+        if not a or len(a["variants"]) != 1:
+            continue
+        flds = a["variants"][0]["fields"]
+        kinds = [_kind_of(f["ty"], a) for f in flds]
+        names = [f["name"] for f in flds]
+        ok = True
+        for role, kind in roles.items():
+            idx = [i for i, k in enumerate(kinds) if k == kind and (flds[i].get("vis") != "Public")]
+            if len(idx) != 1:
+                ok = False
+                break
+            names[idx[0]] = role
+        if not ok or len(set(names)) != len(names):
+            continue
+        ren = {f["name"]: n for f, n in zip(flds, names) if f["name"] != n}
+        canon[path] = names
+        if ren:
+            made[path] = ren
+            for f, n in zip(flds, names):
+                f["name"] = n
+    if not made:
+        return made
+    field_ty = {p: [f["ty"] for f in adts[p]["variants"][0]["fields"]] for p in canon}
+
+    def fix_place(pl, locals_):
+        if not pl.get("proj"):
+            return
+        ty = locals_[pl["l"]]["ty"] if pl["l"] < len(locals_) else ""
+        for e in pl["proj"]:
+            if e == "deref":
+                ty = re.sub(r"^(&(\'\w+ )?(mut )?|\*const |\*mut )", "", ty.strip())
+            elif isinstance(e, dict) and "field" in e:
+                h = _type_head(ty)
+                i = int(e["field"])
+                if h in canon and i < len(canon[h]):
+                    e["name"] = canon[h][i]
+                    ty = field_ty[h][i]
+                else:
+                    ty = ""
+            else:
+                ty = ""
+
+    def walk(o, locals_):
+        if isinstance(o, dict):
+            if "l" in o and "proj" in o:
+                fix_place(o, locals_)
+            if o.get("k") == "aggregate" and o.get("agg") == "adt" and o.get("adt") in canon and o.get("fields"):
+                nm = canon[o["adt"]]
+                o["fields"] = [made.get(o["adt"], {}).get(f, f) for f in o["fields"]]
+            for v in o.values():
+                walk(v, locals_)
+        elif isinstance(o, list):
+            for v in o:
+                walk(v, locals_)
+    for b in bodies:
+        if b.get("blocks"):
+            walk(b["blocks"], b.get("locals") or [])
+    return made
+
+
 class Facts:
     def __init__(self, path, fs):
         with open(path) as f:
@@ -141,6 +255,7 @@ class Facts:
         self.impls = d["impls"]
         self.consts = {c["path"]: c for c in d["consts"]}
         self.bodies = d["bodies"]
+        self.field_renames = canonicalise_fields(self.adts, self.bodies)
         self.by_path = {}
         for b in self.bodies:
             if b["kind"] == "Promoted":
